@@ -142,8 +142,20 @@ theorem OU.mkFun {s s' : St} {v : Bool} {spec : FSpec} {fn : Fun} (h : OU s)
     · rename_i hd hg
       split at hm
       · cases hm
+      split at hm
+      · cases hm
       · have := fin hm; subst this
         exact oui_aset_G_same (hd := { hd with everFwd := true }) hg rfl h
+  | ownG fid g =>
+    simp only [Model.mkFun] at hm
+    split at hm
+    · cases hm
+    · split at hm
+      · cases hm
+      split at hm
+      · cases hm
+      · have := fin hm; subst this
+        exact oui_succ h
   | ownT fid t =>
     simp only [Model.mkFun] at hm
     split at hm
@@ -264,6 +276,8 @@ theorem OU_G_ops (s : St) (op : Op) (s' : St) (r : String) (hI : OU s)
       split at h
       · simp only [Option.some.injEq, Prod.mk.injEq] at h; obtain ⟨rfl, _⟩ := h; exact hI
       split at h
+      · simp only [Option.some.injEq, Prod.mk.injEq] at h; obtain ⟨rfl, _⟩ := h; exact hI
+      split at h
       · repeat' split at h
         all_goals (simp only [Option.some.injEq, Prod.mk.injEq] at h; obtain ⟨rfl, _⟩ := h)
         all_goals (first | exact hI | exact OU.ensureImpl hI ‹_› | skip)
@@ -329,7 +343,11 @@ theorem OU_collectStep (s s' : St) (h : OU s) (hc : collectStep s = some s') : O
       split
       · exact OU.prims.disconnectCell _ h
       · exact h
-    · cases hc
+    · split at hc
+      · rename_i k g _
+        simp only [Option.some.injEq] at hc; subst hc
+        exact OU_forceDelG { s with ownedG := s.ownedG.filter (fun q => q.1 ≠ k) } g h
+      · cases hc
 
 theorem OU.stable : Stable OU where
   log _ _ _ h := h
